@@ -327,6 +327,8 @@ def gen_cases(rng, tier):
             if rng.random() < 0.1:       # incompatible items
                 cls2, item2 = rng.choice([('Vector', (3,)), ('Pair', (2,)), ('Scalar', ())])
                 drank2 = 0
+            elif rng.random() < 0.08:    # the same numerator with one more denominator axis (an object and its derivative)
+                cls2, item2, drank2 = cls, tuple(item) + (rng.choice([2, 3]),), drank + 1
             else:
                 cls2, item2 = cls, item
             b = gen_num_operand(rng, sb, item2, cls2, ub, drank=drank2)
@@ -456,7 +458,11 @@ def ref_cmp(op, a, b, oa, ob):
     if a['cls'] != b['cls'] and a['item'] != b['item'] and op in ('eq', 'ne'):
         return None     # conversion between classes re-reads axes; the property does not say how
     if a.get('drank', 0) != b.get('drank', 0):
-        return None     # numerator/denominator split differs: the property does not say
+        if a['item'] != b['item'] and op in ('eq', 'ne') and s is not None:
+            # an object against (say) its own derivative: the whole items differ, so the operands are incompatible
+            # and compare unequal (seeded change C14-J: only the numerators were compared)
+            return ('bool', op == 'ne')
+        return None     # same whole item, different numerator/denominator split: the property does not say
     if op in ('eq', 'ne'):
         if not compatible or s is None:
             return ('bool', op == 'ne')
